@@ -21,15 +21,18 @@ import (
 
 	"verif/internal/mon"
 	"verif/internal/svc"
+	"verif/internal/vschema"
 	"verif/internal/wire"
 )
 
 // TimeoutCase is one replayable grpc-timeout execution.
 type TimeoutCase struct {
-	Part  string `json:"part"`  // "timeout"
-	Proto string `json:"proto"` // grpc | web
-	Value string `json:"value"` // header value, verbatim
-	Class string `json:"class"`
+	Part   string `json:"part"`             // "timeout"
+	Proto  string `json:"proto"`            // grpc | web
+	Method string `json:"method,omitempty"` // Echo (unary, default) | Bidi (streaming)
+	Value  string `json:"value"`            // header value, verbatim
+	Class  string `json:"class"`
+	Opts   Opts   `json:"opts"` // mux options installed (see opts15.go)
 }
 
 var legalTimeout = regexp.MustCompile(`^[0-9]{1,8}[HMSmun]$`)
@@ -96,20 +99,29 @@ func timeoutOf(s string) (T time.Duration, far bool) {
 	return time.Duration(t.Int64()), false
 }
 
-type dlRec struct {
-	entered  int32
-	mu       sync.Mutex
+// dlObs is one observation of a context's deadline: at the entry of the
+// method handler ("glue": what larking hands to generated code) and inside the
+// user handler behind the interceptor chain ("handler").
+type dlObs struct {
+	where    string
 	has      bool
 	deadline time.Time
 	tEntry   time.Time
 	ctxErr   error
 }
 
+type dlRec struct {
+	entered int32
+	mu      sync.Mutex
+	obs     []dlObs
+}
+
 type dlSvc struct {
-	std  *svc.Std
-	mux  *larking.Mux
-	recs sync.Map // id -> *dlRec
-	seq  int64
+	std   *svc.Std
+	muMux sync.Mutex
+	muxes map[string]*larking.Mux
+	recs  sync.Map // id -> *dlRec
+	seq   int64
 }
 
 func newDLSvc() (*dlSvc, error) {
@@ -117,37 +129,60 @@ func newDLSvc() (*dlSvc, error) {
 	if err != nil {
 		return nil, err
 	}
-	s := &dlSvc{std: std}
-	s.mux, err = newMux(std, s.unary, s.stream)
+	s := &dlSvc{std: std, muxes: map[string]*larking.Mux{}}
+	_, err = s.muxFor(Opts{})
 	return s, err
 }
 
-func (s *dlSvc) enter(ctx context.Context) {
+func (s *dlSvc) muxFor(o Opts) (*larking.Mux, error) {
+	s.muMux.Lock()
+	defer s.muMux.Unlock()
+	if m := s.muxes[o.key()]; m != nil {
+		return m, nil
+	}
+	m, err := newMux(s.std, s.unary, s.stream, c15MuxOptions(o)...)
+	if err != nil {
+		return nil, err
+	}
+	s.muxes[o.key()] = m
+	return m, nil
+}
+
+func (s *dlSvc) observe(ctx context.Context, where string, first bool) {
 	now := time.Now()
 	v, ok := s.recs.Load(scnID(ctx))
 	if !ok {
 		return
 	}
 	rec := v.(*dlRec)
-	atomic.AddInt32(&rec.entered, 1)
+	if first {
+		atomic.AddInt32(&rec.entered, 1)
+	}
+	o := dlObs{where: where, tEntry: now, ctxErr: ctx.Err()}
+	o.deadline, o.has = ctx.Deadline()
 	rec.mu.Lock()
-	rec.tEntry = now
-	rec.deadline, rec.has = ctx.Deadline()
-	rec.ctxErr = ctx.Err()
+	rec.obs = append(rec.obs, o)
 	rec.mu.Unlock()
 }
 
 func (s *dlSvc) unary(ctx context.Context, md protoreflect.MethodDescriptor, dec func(interface{}) error, icpt grpc.UnaryServerInterceptor) (interface{}, error) {
-	s.enter(ctx)
+	s.observe(ctx, "glue", true)
 	in := newChunk()
 	if err := dec(in); err != nil {
 		return nil, err
 	}
-	return in, nil
+	h := func(ctx context.Context, req interface{}) (interface{}, error) {
+		s.observe(ctx, "handler", false)
+		return req, nil
+	}
+	if icpt == nil {
+		return h(ctx, in)
+	}
+	return icpt(ctx, in, &grpc.UnaryServerInfo{FullMethod: vschema.FullMethod(md)}, h)
 }
 
 func (s *dlSvc) stream(md protoreflect.MethodDescriptor, ss grpc.ServerStream) error {
-	s.enter(ss.Context())
+	s.observe(ss.Context(), "handler", true)
 	return status.Error(codes.Unimplemented, "not used")
 }
 
@@ -168,13 +203,22 @@ func (s *dlSvc) execTimeout(c *TimeoutCase) (vs []viol, shape string, notes []st
 	}
 	var req *http.Request
 	frame := wire.Frame(nil, false)
+	method := "Echo"
+	if c.Method == "Bidi" {
+		method, frame = "Bidi", nil
+	}
+	mux, err := s.muxFor(c.Opts)
+	if err != nil {
+		notes = append(notes, "mux-setup-failed")
+		return vs, "", notes
+	}
 	if c.Proto == "web" {
-		req = wire.WebRequest(s.std.Full("Echo"), hdr, frame, false, "")
+		req = wire.WebRequest(s.std.Full(method), hdr, frame, false, "")
 	} else {
-		req = wire.GRPCRequest(s.std.Full("Echo"), hdr, bytes.NewReader(frame))
+		req = wire.GRPCRequest(s.std.Full(method), hdr, bytes.NewReader(frame))
 	}
 	t0 := time.Now()
-	resp := wire.Serve(s.mux, req)
+	resp := wire.Serve(mux, req)
 	tRet := time.Now()
 
 	add := func(k, w string) { vs = append(vs, viol{c.Proto + ":" + k, w}) }
@@ -190,8 +234,15 @@ func (s *dlSvc) execTimeout(c *TimeoutCase) (vs []viol, shape string, notes []st
 	}
 	entered := int(atomic.LoadInt32(&rec.entered))
 	rec.mu.Lock()
-	has, deadline, tEntry, ctxErr := rec.has, rec.deadline, rec.tEntry, rec.ctxErr
+	obs := append([]dlObs(nil), rec.obs...)
 	rec.mu.Unlock()
+	var has bool
+	var deadline time.Time
+	var ctxErr error
+	if len(obs) > 0 {
+		has, deadline, ctxErr = obs[0].has, obs[0].deadline, obs[0].ctxErr
+	}
+	shapeSfx := "/" + method + "/" + c.Opts.key()
 
 	gcode, _, _, gok := resp.GRPCStatus()
 	if c.Proto == "web" && !gok {
@@ -207,7 +258,7 @@ func (s *dlSvc) execTimeout(c *TimeoutCase) (vs []viol, shape string, notes []st
 		if entered == 1 && !has {
 			notes = append(notes, "absent-no-deadline")
 		}
-		return vs, c.Proto + "/absent", notes
+		return vs, c.Proto + "/absent" + shapeSfx, notes
 	case "legal":
 		unit := c.Value[len(c.Value)-1:]
 		T, far := timeoutOf(c.Value)
@@ -220,25 +271,34 @@ func (s *dlSvc) execTimeout(c *TimeoutCase) (vs []viol, shape string, notes []st
 			add("legal-timeout:handler-invocations:"+sfx, fmt.Sprintf("%s: method handler invoked %d times (HTTP %d)", desc, entered, resp.Code))
 			return vs, "", notes
 		}
-		if !has {
-			if far {
-				notes = append(notes, "far-no-deadline")
-			} else {
-				add("deadline-missing:"+sfx, desc+": handler context has no deadline")
+		for _, o := range obs {
+			if len(vs) > 0 {
+				break // the handler's context derives from the glue's: one report
 			}
-			return vs, c.Proto + "/legal/" + sfx, notes
+			at := "at-" + o.where
+			if !o.has {
+				if far {
+					notes = append(notes, "far-no-deadline")
+				} else {
+					add("deadline-missing:"+at, fmt.Sprintf("%s: the context at the %s has no deadline", desc, o.where))
+				}
+				continue
+			}
+			if far {
+				if o.deadline.Sub(t0) < hundredYears-365*24*time.Hour {
+					add("deadline-early:"+at+":"+sfx, fmt.Sprintf("%s (>= 100 years): deadline at the %s only %v after the call", desc, o.where, o.deadline.Sub(t0)))
+				}
+				continue
+			}
+			if lo := o.deadline.Sub(t0); lo < T {
+				add("deadline-early:"+at+":"+sfx, fmt.Sprintf("%s: deadline at the %s %v after the call started, want >= %v", desc, o.where, lo, T))
+			}
+			if hi := o.deadline.Sub(o.tEntry); hi > T {
+				add("deadline-late:"+at+":"+sfx, fmt.Sprintf("%s: deadline %v after the %s was entered, want <= %v", desc, hi, o.where, T))
+			}
 		}
 		if far {
-			if deadline.Sub(t0) < hundredYears-365*24*time.Hour {
-				add("deadline-early:"+sfx, fmt.Sprintf("%s (>= 100 years): deadline only %v after the call", desc, deadline.Sub(t0)))
-			}
-			return vs, c.Proto + "/legal/" + sfx, notes
-		}
-		if lo := deadline.Sub(t0); lo < T {
-			add("deadline-early:"+sfx, fmt.Sprintf("%s: deadline %v after the call started, want >= %v", desc, lo, T))
-		}
-		if hi := deadline.Sub(tEntry); hi > T {
-			add("deadline-late:"+sfx, fmt.Sprintf("%s: deadline %v after handler entry, want <= %v", desc, hi, T))
+			return vs, c.Proto + "/legal/" + sfx + shapeSfx, notes
 		}
 		// D28 second half (observation only): response of a call whose
 		// deadline had already expired.
@@ -249,7 +309,7 @@ func (s *dlSvc) execTimeout(c *TimeoutCase) (vs []viol, shape string, notes []st
 				notes = append(notes, "expired-with-grpc-status")
 			}
 		}
-		return vs, fmt.Sprintf("%s/legal/%s/digits=%d", c.Proto, sfx, len(c.Value)-1), notes
+		return vs, fmt.Sprintf("%s/legal/%s/digits=%d", c.Proto, sfx, len(c.Value)-1) + shapeSfx, notes
 	default:
 		desc := fmt.Sprintf("malformed grpc-timeout %q (%s)", c.Value, cls)
 		if entered != 0 {
@@ -266,7 +326,7 @@ func (s *dlSvc) execTimeout(c *TimeoutCase) (vs []viol, shape string, notes []st
 		if resp.Code < 400 && !(gok && gcode != 0) {
 			add("malformed-timeout-not-refused:"+cls, fmt.Sprintf("%s: handler not invoked but the response is HTTP %d without an error status", desc, resp.Code))
 		}
-		return vs, c.Proto + "/malformed/" + cls, notes
+		return vs, c.Proto + "/malformed/" + cls + shapeSfx, notes
 	}
 }
 
@@ -376,6 +436,89 @@ func allSmall() []string {
 	return out
 }
 
+// timeoutGroup serves one header value under several option masks (ordered
+// so that sub-masks come first) and reports a violation only for masks none of
+// whose already failing sub-masks explain it.
+func (s *dlSvc) timeoutGroup(r *mon.Run, base TimeoutCase, masks []Opts, sample bool) {
+	type failed struct {
+		o   Opts
+		key string
+	}
+	var fails []failed
+	for _, o := range masks {
+		c := base
+		c.Opts = o
+		vs, shape, notes := s.execTimeout(&c)
+		r.Eval(1)
+		r.Count("timeout_strings", 1)
+		r.Count("timeout_class_"+c.Class, 1)
+		if !o.none() {
+			r.Count("timeout_requests_with_mux_options", 1)
+		}
+		for _, n := range notes {
+			r.Count("timeout_note_"+n, 1)
+		}
+		if shape != "" {
+			r.Distinct("timeout:" + shape)
+		}
+		for _, v := range vs {
+			explained := false
+			for _, f := range fails {
+				if f.key == v.key && f.o != o && f.o.coveredBy(o) {
+					explained = true
+				}
+			}
+			fails = append(fails, failed{o, v.key})
+			if explained {
+				continue
+			}
+			// attribute to the smallest sub-masks that fail the same way
+			// (in-process re-executions of the same string)
+			blame := []Opts{o}
+			if subs := subMasks(o); len(subs) > 0 {
+				var minimal []Opts
+				for _, sm := range subs {
+					covered := false
+					for _, m := range minimal {
+						if m.coveredBy(sm) {
+							covered = true
+						}
+					}
+					if covered {
+						continue
+					}
+					sc := base
+					sc.Opts = sm
+					svs, _, _ := s.execTimeout(&sc)
+					r.Eval(1)
+					for _, sv := range svs {
+						if sv.key == v.key {
+							minimal = append(minimal, sm)
+							break
+						}
+					}
+				}
+				if len(minimal) > 0 {
+					blame = minimal
+				}
+			}
+			for _, b := range blame {
+				key := v.key
+				if !b.none() {
+					key += ":with=" + b.key()
+				}
+				cc := c
+				cc.Opts = b
+				r.Violate(key, v.what+" [mux options: "+b.key()+", method "+c.Method+"]", &cc)
+			}
+		}
+		if sample {
+			cc := c
+			r.Sample(&cc)
+		}
+	}
+}
+
 func runTimeouts(r *mon.Run) {
 	s, err := newDLSvc()
 	if err != nil {
@@ -383,18 +526,45 @@ func runTimeouts(r *mon.Run) {
 		return
 	}
 	rng := r.Rand("c15-timeouts")
-	var cases []TimeoutCase
-	addc := func(proto, v string) {
-		cases = append(cases, TimeoutCase{Part: "timeout", Proto: proto, Value: v, Class: classifyTimeout(v)})
+	masks := c15Masks()
+	// masksFor: quick = all-off, all-on and one of the remaining masks in
+	// rotation; thorough (and the small enumerated sets) = all of them.
+	rot := 0
+	masksFor := func(all bool) []Opts {
+		if all {
+			return masks
+		}
+		rot++
+		others := []int{1, 2, 4, 3, 5, 6, 8}
+		k := others[rot%len(others)]
+		if k == 8 {
+			return []Opts{masks[0], masks[7], masks[8]}
+		}
+		return []Opts{masks[0], masks[k], masks[7]}
 	}
-	for _, v := range quickLegal() {
-		addc("grpc", v)
-		addc("web", v)
+	type job struct {
+		base  TimeoutCase
+		masks []Opts
 	}
-	for _, v := range allSmall() {
-		addc("grpc", v)
+	var jobs []job
+	addc := func(proto, method, v string, ms []Opts) {
+		jobs = append(jobs, job{TimeoutCase{Part: "timeout", Proto: proto, Method: method, Value: v, Class: classifyTimeout(v)}, ms})
+	}
+	for i, v := range quickLegal() {
+		for _, p := range []string{"grpc", "web"} {
+			addc(p, "Echo", v, masksFor(r.Thorough()))
+			if r.Thorough() || i%2 == 0 {
+				addc(p, "Bidi", v, masksFor(r.Thorough()))
+			}
+		}
+	}
+	for i, v := range allSmall() {
+		m := []string{"Echo", "Bidi"}[i%2]
 		if r.Thorough() {
-			addc("web", v)
+			addc("grpc", m, v, masks)
+			addc("web", m, v, []Opts{masks[0], masks[7]})
+		} else {
+			addc("grpc", m, v, []Opts{masks[0], masks[(i%8)+1]})
 		}
 	}
 	nMal := r.Pick(2000, 40000)
@@ -407,7 +577,7 @@ func runTimeouts(r *mon.Run) {
 		if i%5 == 4 {
 			p = "web"
 		}
-		addc(p, v)
+		addc(p, []string{"Echo", "Bidi"}[i%2], v, []Opts{masks[i%len(masks)]})
 	}
 	nLegal := r.Pick(1500, 2000000)
 	for i := 0; i < nLegal; i++ {
@@ -415,9 +585,11 @@ func runTimeouts(r *mon.Run) {
 		if i%8 == 7 {
 			p = "web"
 		}
-		addc(p, randLegal(rng))
+		addc(p, []string{"Echo", "Echo", "Bidi"}[i%3], randLegal(rng), []Opts{masks[i%len(masks)]})
 	}
-	cases = append(cases, TimeoutCase{Part: "timeout", Proto: "grpc", Value: "", Class: "absent"}, TimeoutCase{Part: "timeout", Proto: "web", Value: "", Class: "absent"})
+	for _, p := range []string{"grpc", "web"} {
+		jobs = append(jobs, job{TimeoutCase{Part: "timeout", Proto: p, Method: "Echo", Value: "", Class: "absent"}, masks})
+	}
 
 	var wg sync.WaitGroup
 	workers := 8
@@ -428,26 +600,10 @@ func runTimeouts(r *mon.Run) {
 			defer wg.Done()
 			for {
 				i := int(atomic.AddInt64(&next, 1))
-				if i >= len(cases) {
+				if i >= len(jobs) {
 					return
 				}
-				c := &cases[i]
-				vs, shape, notes := s.execTimeout(c)
-				r.Eval(1)
-				r.Count("timeout_strings", 1)
-				r.Count("timeout_class_"+c.Class, 1)
-				for _, n := range notes {
-					r.Count("timeout_note_"+n, 1)
-				}
-				if shape != "" {
-					r.Distinct("timeout:" + shape)
-				}
-				for _, v := range vs {
-					r.Violate(v.key, v.what, c)
-				}
-				if i%(len(cases)/5+1) == 0 {
-					r.Sample(c)
-				}
+				s.timeoutGroup(r, jobs[i].base, jobs[i].masks, i%(len(jobs)/4+1) == 0)
 			}
 		}()
 	}
@@ -461,11 +617,53 @@ func replayTimeout(r *mon.Run, c *TimeoutCase) {
 		return
 	}
 	c.Class = classifyTimeout(c.Value)
-	vs, shape, _ := s.execTimeout(c)
-	r.Eval(1)
-	r.Distinct("timeout:" + shape)
-	r.Distinct("timeout:" + shape + "#replay")
-	for _, v := range vs {
-		r.Violate(v.key, v.what, c)
+	if c.Method == "" {
+		c.Method = "Echo"
 	}
+	s.timeoutGroup(r, *c, []Opts{c.Opts}, false)
+	r.Distinct("timeout:replay")
+}
+
+// subMasks lists the proper sub-masks of o (fewer options on, same modes),
+// smallest first, starting with the empty mask.
+func subMasks(o Opts) []Opts {
+	on := o.onOff()
+	n := 0
+	for _, b := range on {
+		if b {
+			n++
+		}
+	}
+	if n == 0 {
+		return nil
+	}
+	var out []Opts
+	for size := 0; size < n; size++ {
+		for bits := 0; bits < 8; bits++ {
+			m := Opts{}
+			cnt, ok := 0, true
+			for i := 0; i < 3; i++ {
+				if bits&(1<<i) == 0 {
+					continue
+				}
+				if !on[i] {
+					ok = false
+					break
+				}
+				cnt++
+				switch i {
+				case 0:
+					m.Unary = o.Unary
+				case 1:
+					m.Stream = o.Stream
+				case 2:
+					m.Stats = true
+				}
+			}
+			if ok && cnt == size {
+				out = append(out, m)
+			}
+		}
+	}
+	return out
 }
